@@ -826,6 +826,13 @@ func (x *X) atCallAsserts(fr *Frame, st *State, callee *ssa.Function, args []SV,
 				if i < len(args) {
 					vars["arg_"+p.Name()] = args[i]
 				}
+				if i == 0 && callee.Signature.Recv() != nil {
+					// the receiver also answers to arg_recv
+					extra["arg_recv"] = p.Type()
+					if len(args) > 0 {
+						vars["arg_recv"] = args[0]
+					}
+				}
 			}
 		} else {
 			// a function of another module (no body built): name the
